@@ -481,6 +481,91 @@ def main():
             if len(chk.cov["samples"]) < 8 and chk.cov["evaluations"] % 53 == 7:
                 chk.sample({"direction": "library rewrites", "type": NAMES[t], "endian": c["sex"], "encoding": c["enc"], "op": c["op"], "payload_hex": payload.hex()[:64]})
 
+    # ------------------------------------------------------------------ F: the DECLARATION changes without moving the data
+    # (gd_alter_encoding / gd_alter_endianness / gd_alter_frameoffset with move = 0) on a handle that has or has not
+    # touched the field before (read and left open, read and gd_raw_close'd, gd_eof only, untouched), then the library
+    # WRITES: the samples must arrive in the file named for the NEW encoding, in the NEW format / byte order / position,
+    # and the file of the old encoding must be left as it was.  Files are decoded by name, by hand.
+    fcases = []
+
+    def f_case(kind, t, sex, enc, off, comps, op, t2, sex2, enc2, put, check, note):
+        d = os.path.join(root, "f%d" % len(fcases)); os.mkdir(d)
+        with open(os.path.join(d, "format"), "w") as fh:
+            fh.write("/ENCODING %s\n%s\n/FRAMEOFFSET %d\na RAW %s 1\n" % (enc, gdlib.sex_directive(sex), off, NAMES[t]))
+        oldbytes = gdlib.container_encode(enc, py_payload(rng, t, sex, enc, comps))
+        with open(os.path.join(d, "a" + EXT[enc]), "wb") as fh:
+            fh.write(oldbytes)
+        n = len(comps) // NCOMP[t]
+        touch = rng.choice([["get a %d %d 0 %d" % (t, off, n)], ["get a %d %d 0 %d" % (t, off, n), "rawclose a"], ["eof a"],
+                            ["get a %d %d 0 %d" % (t, off, min(n, 2)), "flush a"], []])
+        fcases.append({"kind": kind, "dir": d, "t": t, "sex": sex, "enc": enc, "off": off, "comps": comps, "op": op, "t2": t2, "sex2": sex2,
+                       "enc2": enc2, "check": check, "note": note, "old": oldbytes, "touch": " ; ".join(touch) or "untouched",
+                       "script": ["open %s rw" % d] + touch + [op, put, "close"]})
+
+    for enc in ENCS:
+        for enc2 in ENCS:
+            if enc2 == enc:
+                continue
+            t = rng.choice(multi + [1]); sex = rng.choice(gdlib.sexes_for(t)); off = rng.choice([0, 2])
+            comps = e_values(t, rng.choice([4, 12]), enc == "text")
+            k = rng.choice([1, 3, 9]); p = rng.choice([0, 0, 2])
+            new = e_values(t, k, enc2 == "text")
+            f_case("encoding", t, sex, enc, off, comps, "alter_encoding %s 0 0" % enc2, t, sex, enc2,
+                   "put a %d %d %d %d %s" % (t, off, p, k, gdlib.hexs(new)), ("new-file", [0] * (p * NCOMP[t]) + new), "%s->%s" % (enc, enc2))
+        if enc in ("none", "gzip", "bzip2", "lzma"):
+            for t in (3, 9, rng.choice([4, 7, 8, 10, 11])):
+                sx = gdlib.sexes_for(t); s1 = rng.choice(sx); s2 = rng.choice([x for x in sx if x != s1])
+                n = rng.choice([5, 14]); comps = e_values(t, n, False)
+                k = rng.choice([1, 3]); p = rng.randint(0, n - k); new = e_values(t, k, False)
+                want = bytearray(gdlib.enc_samples(t, s1, comps)); want[p * TSIZE[t]:(p + k) * TSIZE[t]] = gdlib.enc_samples(t, s2, new)
+                f_case("endianness", t, s1, enc, 0, comps, "alter_endianness %s %d 0 0" % ("big" if "b" in s2 else "little", 1 if "a" in s2 else 0), t, s2, enc,
+                       "put a %d 0 %d %d %s" % (t, p, k, gdlib.hexs(new)), ("payload", bytes(want)), "%s->%s" % (s1, s2))
+        for (o1, o2) in ((0, 2), (3, 1)):
+            t = rng.choice(multi); sex = rng.choice(gdlib.sexes_for(t))
+            n = rng.choice([5, 14]); comps = e_values(t, n, enc == "text")
+            k = rng.choice([1, 3]); p = rng.randint(0, n - k) if enc != "text" else n
+            new = e_values(t, k, enc == "text")
+            nc = NCOMP[t]
+            f_case("frameoffset", t, sex, enc, o1, comps, "alter_frameoffset %d 0 0" % o2, t, sex, enc,
+                   "put a %d %d %d %d %s" % (t, o2, p, k, gdlib.hexs(new)), ("samples", comps[:p * nc] + new + comps[(p + k) * nc:]), "%d->%d" % (o1, o2))
+    with ThreadPoolExecutor(max_workers=vlib.NPROC) as ex_:
+        fouts = list(ex_.map(lambda c: vlib.sh([exe], inp=("\n".join(c["script"]) + "\n").encode(), timeout=300), fcases))
+    for c, (rc_, out_) in zip(fcases, fouts):
+        chk.cov["evaluations"] += 1
+        t2, sex2, enc2 = c["t2"], c["sex2"], c["enc2"]
+        key = "redeclare/%s/%s" % (c["kind"], c["enc"])
+        r = out_.rstrip("\n").split("\n")
+        ctx = "%s %s %s, %s ; %s (%s) ; %s" % (NAMES[c["t"]], c["sex"], c["enc"], c["touch"], c["op"], c["note"], c["script"][-2][:60])
+        if rc_ != 0 or len(r) != len(c["script"]):
+            spec_bad.setdefault(key, []).append((c, "%s: gdrun died rc=%d: %s" % (ctx, rc_, out_[-200:])))
+            continue
+        if r[0] != "open 0" or r[-3].split()[1:] != ["0", "0"] or not r[-2].endswith(" 0") or r[-1] != "close 0":
+            spec_bad.setdefault(key, []).append((c, "%s: calls failed: %s" % (ctx, " | ".join(x[:40] for x in r))))
+            continue
+        raw = gdlib.read_field_file(c["dir"], "a", enc2)
+        names = sorted(os.listdir(c["dir"]))
+        try:
+            payload = gdlib.container_decode(enc2, raw) if raw is not None else None
+        except Exception as ex:
+            payload = None
+        got, why = (None, "no file a%s (directory: %s)" % (EXT[enc2], names)) if payload is None else decode_payload(t2, sex2, enc2, payload) if c["check"][0] != "payload" else (payload, None)
+        bad = None
+        if got is None:
+            bad = "the file of the new declaration is missing or malformed: %s" % why
+        elif c["check"][0] == "payload":
+            if payload != c["check"][1]:
+                bad = "a%s holds %s, expected the old bytes with the written samples in the new byte order: %s" % (EXT[enc2], payload.hex()[:160], c["check"][1].hex()[:160])
+        elif got != c["check"][1]:
+            bad = "a%s read by hand as %s %s holds %s, expected %s" % (EXT[enc2], NAMES[t2], sex2, gdlib.hexs(got)[:160], gdlib.hexs(c["check"][1])[:160])
+        if not bad and c["kind"] == "encoding":
+            oldnow = open(os.path.join(c["dir"], "a" + EXT[c["enc"]]), "rb").read() if os.path.exists(os.path.join(c["dir"], "a" + EXT[c["enc"]])) else None
+            if oldnow != c["old"]:
+                bad = "the file of the old encoding a%s was %s (move = 0 must leave it alone)" % (EXT[c["enc"]], "removed" if oldnow is None else "changed: now %s" % oldnow.hex()[:80])
+        if bad:
+            spec_bad.setdefault(key, []).append((c, "%s: %s; directory: %s" % (ctx, bad, names)))
+        else:
+            nontriv.add(("redeclare", c["kind"], c["t"], c["sex"], c["enc"], c["op"], c["touch"], raw))
+
     # ------------------------------------------------------------------ C: _GD_FixEndianness vs model, all flag pairs
     flagsets = ["0", "l", "b", "lb", "a", "la", "ba", "lba"]
     script, mlines = [], []
@@ -555,7 +640,7 @@ def main():
                        "discovers, sizes and reads them; compared with the samples and with the model's decoder.  _GD_FixEndianness vs the "
                        "model on %d (type, old flags, new flags) triples over all 8x8 flag words.  non-trivial = distinct (type, order, "
                        "encoding, payload) other than native unencoded from frame 0") % (nwrite, len(rcases), nfix)
-    chk.cov["input_distribution"] = {"write_cases": nwrite, "read_cases": len(rcases), "fixend_cases": nfix, "rewrite_cases": len(ecases),
+    chk.cov["input_distribution"] = {"write_cases": nwrite, "read_cases": len(rcases), "fixend_cases": nfix, "rewrite_cases": len(ecases), "redeclare_cases": len(fcases),
                                      "by_encoding_write": {e: sum(1 for c in cases if c["enc"] == e) for e in ENCS}}
     if trans_problems and not found_any:
         chk.violation("translator", "translator cannot read src/encoding.c: " + "; ".join(trans_problems[:3]),
